@@ -30,7 +30,8 @@ RULE = ("(solver class, K, antennas, streams, scalar|vector power over 3 "
         "identity relation was evaluated after at least one operation.  "
         "GreedStreamIASolver / BruteForceStreamIASolver wrap each iterative "
         "solver on 2-3 user channels; afterwards the wrapped solver must satisfy "
-        "all relations at the requested power.")
+        "all relations at the requested power."
+        "One stream-search case in eight is an over-loaded request (K=3, 3x3, 2 streams, high SNR) that the greedy wrapper reduces to one stream each before being used again. ")
 ASSUMPTIONS = [
     "identity tolerance 1e3 eps kappa(W_H H_kk full_F); closed-form nulling "
     "1e-9 relative to ||W_H|| ||H_kl|| ||F_l|| times kappa of the channels",
@@ -355,21 +356,29 @@ def case_stream_search(ctx, rng, idx):
         K, M, ns = 3, int(rng.integers(3, 5)), 2
     if wrapper == "greedy" and not weak and M >= 3 and rng.random() < 0.6:
         ns = int(rng.integers(2, M))                  # room for stream reduction
+    allone = idx % 8 == 3
+    if allone:
+        # an over-loaded request (2 streams each on 3x3, K = 3) at high SNR: the
+        # greedy search goes all the way down to one stream per user and stops
+        # because nothing is left to drop -- then the same wrapper is used again
+        wrapper, K, M, ns = "greedy", 3, 3, 2
     Nr, Nt = [M] * K, [M] * K
-    if not weak and M >= 3 and rng.random() < 0.3:
+    if not weak and not allone and M >= 3 and rng.random() < 0.3:
         # unequal antenna counts (at least ns + 1 everywhere)
         Nr = [int(x) for x in rng.integers(ns + 1, M + 2, size=K)]
         Nt = [int(x) for x in rng.integers(ns + 1, M + 2, size=K)]
-    noise = float(10.0 ** rng.uniform(-4, 0))
+    noise = float(10.0 ** rng.uniform(-4, 0)) if not allone else float(10.0 ** rng.uniform(-7, -4))
     mu, Hkl = make_channel(rng, Nr, Nt, noise)
     s = SOLVERS[name](mu)
     if hasattr(s, "_rs"):
         s._rs.seed(int(rng.integers(0, 2 ** 31)))
-    s.max_iterations = int(rng.choice([0, 1, 5, 20, 60])) if not weak else \
+    s.max_iterations = int(rng.choice([0, 1, 5, 20, 60])) if not (weak or allone) else \
         int(rng.choice([5, 20, 60]))
     P = [None, float(10.0 ** rng.uniform(-1, 2)), 10.0 ** rng.uniform(-1, 2, size=K)][
         int(rng.integers(0, 3))]
-    if weak or (rng.random() < 0.3 and ns >= 2):
+    if allone:
+        P = [None, float(10.0 ** rng.uniform(0, 2))][int(rng.integers(0, 2))]
+    elif weak or (rng.random() < 0.3 and ns >= 2):
         # one user with hardly any power: its weakest stream dies and the solver
         # itself reduces that user's stream count
         P = 10.0 ** rng.uniform(1, 2.5, size=K)
@@ -380,11 +389,15 @@ def case_stream_search(ctx, rng, idx):
     tag = {"wrapper": wrapper, "solver": name, "K": K, "M": M, "Ns": ns, "P": P, "noise": noise,
            "max_iterations": s.max_iterations}
     w = IA.GreedStreamIASolver(s) if wrapper == "greedy" else IA.BruteForceStreamIASolver(s)
-    twice = idx % 3 == 2         # the wrapper object is used for two searches in a row
+    twice = idx % 3 == 2 or allone   # the wrapper object is used for two searches in a row
     tag["solved_twice"] = twice
     try:
         w.solve(ns, P)
         if twice:
+            first_Ns = [int(x) for x in np.asarray(s.Ns)]
+            tag["Ns_after_first_search"] = first_Ns
+            if wrapper == "greedy" and ns > 1 and all(x == 1 for x in first_Ns):
+                ctx.tally("stream-search:greedy-reduced-everyone-to-one-stream-then-reused")
             w.solve(ns, P)
     except RuntimeError as e:
         if name == "mmse" and "Lagrange" in str(e):
